@@ -379,6 +379,39 @@ def run(ctx):
                 if tt['k'] == 'switch' and is_local_op(tt['d']) and any(c.endswith('get_sub_element_multiplicity') for c in all_sources(x, tt['d'], depth=8)[1]):
                     okm = True
         C.check(okm, 'C07-SIB-mult', fn + '|branches-on-multiplicity', '%s does not branch on the multiplicity of the element' % fn, '%s:%d' % (b.file, b.line))
+    # ---------------- SIB-valuecols: editor-side value checks read the same specification columns as the loader ----------------
+    C.rule('C07-SIB-valuecols', 'CharacterData::check_value (setters) and CharacterData::parse (string setters) read every validating column of CharacterDataSpec that the loader\'s parse_character_data reads: Enum.items, Pattern.check_fn, Pattern.max_length, String.max_length')
+    def spec_cols(fn):
+        b = P.get(fn)
+        seen = set()
+        for x in P.with_closures(b):
+            for pos, role, pl, st in iter_uses(x):
+                if is_local_op(pl):
+                    ps = [p_ for p_ in pl.get('p', []) if p_ != '*']
+                    for i_, p_ in enumerate(ps):
+                        if str(p_).startswith('.CharacterDataSpec.') and i_ > 0 and str(ps[i_ - 1]).startswith('as '):
+                            seen.add((ps[i_ - 1][3:], p_.split('.')[-1]))
+        return seen
+    loader_cols = spec_cols('ArxmlParser::parse_character_data')
+    validating = {c for c in loader_cols if c[1] in ('items', 'check_fn', 'max_length')}
+    C.check(len(validating) >= 4, 'C07-SIB-valuecols', 'loader|validating-columns', 'the loader reads fewer validating columns than expected: %s' % sorted(validating))
+    for fn in ('CharacterData::check_value', 'CharacterData::parse'):
+        got = spec_cols(fn)
+        for col in sorted(validating):
+            C.check(col in got, 'C07-SIB-valuecols', '%s|reads|%s.%s' % (fn, col[0], col[1]), '%s does not read CharacterDataSpec::%s.%s although the loader validates with it: the editing API accepts values the loader rejects (e.g. identifiers longer than max_length)' % (fn, col[0], col[1]),
+                    '%s:%d' % (P.get(fn).file, P.get(fn).line), sample={'fn': fn, 'column': '%s.%s' % col} if col[1] == 'max_length' and col[0] == 'Pattern' else None)
+    # ---------------- move: source and destination must have EXACTLY the same version ----------------
+    for fn in ('Element::move_element_here', 'Element::move_element_here_at'):
+        b = P.get(fn)
+        eqs = [p_ for p_ in calls(b, r'PartialEq(<.*>)?>?::(ne|eq)$|PartialEq::(ne|eq)$') if any('AutosarVersion' in (b.local_ty(a_['l']) or '') for a_ in b.blocks[p_[0]]['term']['args'] if is_local_op(a_))]
+        ords = [p_ for p_ in calls(b, r'PartialOrd.*::(lt|le|gt|ge|partial_cmp)$|Ord>?::cmp$') if any('AutosarVersion' in (b.local_ty(a_['l']) or '') for a_ in b.blocks[p_[0]]['term']['args'] if is_local_op(a_))]
+        inner = calls(b, r'ElementRaw>::move_element_here(_at)?$')
+        okv = bool(eqs) and not ords and bool(inner)
+        if okv:
+            mv = calls(b, r'impl Element>::min_version$')
+            okv = len(mv) >= 2 and all(b.pos_dominates(eqs[0], p_) for p_ in inner)
+        C.check(okv, 'C07-MUST-type', fn + '|same-version-required', '%s does not require the versions of the source and the destination file to be EQUAL (an ordering test lets a subtree move into a newer file unfiltered: content that only exists in the old version ends up in the new file)' % fn,
+                '%s:%d' % (b.file, b.line), sample={'fn': fn, 'guard': 'version != version_src -> VersionMismatch'})
     # ---------------- SIB-named: one notion of "identifiable in this version" on all creation paths ----------------
     C.rule('C07-SIB-named', 'whether a sub element needs an item name is decided with ElementType::is_named_in_version(file version) on both creation paths (create_sub_element_inner refuses named types, create_named_sub_element_inner requires them) and by the parser; '
            'list_valid_sub_elements reports the named flag from the version-specific mask. The version-independent is_named() is not used to accept or refuse a creation')
